@@ -25,7 +25,8 @@ LEVEL_TEXT = ("All $not rules of the stated grammar x all listings up to the bou
 LEVEL_NOTE = "Trusted: mc/refmodel.py $not semantics (exactly one instruction/operand at which the argument has no match)."
 
 ALPHA_I = [("mov", ["%rax", "%rbx"]), ("mov", ["%rbx", "%rax"]), ("push", ["%rax"]), ("ret", []),
-           ("rex.W", [])]   # a mnemonic objdump prints that is not a word (also .byte, rex.WRB, ...)
+           ("rex.W", []),   # a mnemonic objdump prints that is not a word (also .byte, rex.WRB, ...)
+           ("vpermil2ps", ["$0x0", "%xmm3", "%xmm2", "%xmm1", "%xmm0"])]   # five operands
 ALPHA_O = [("mov", ["%rax", "%rbx"]), ("mov", ["%rbx", "%rax"]), ("mov", ["$0x1", "%rax"]),
            ("mov", ["%rax", "%rbx", "%rcx"]), ("mov", ["%rax"]), ("mov", ["%rbx", "$0x1", "%rax"]), ("mov", ["%rax", "%rax"]),
            ("ret", [])]
@@ -92,7 +93,13 @@ def build_lsets(h, tier):
     return {"instr": e1.ListingSet(h, ALPHA_I, bounds(tier)["L_instr"]), "oper": e1.ListingSet(h, ALPHA_O, 2)}
 
 
+LONGLIST = [(["mov", {"$not": ["mov"]}, "ret"], [("mov", ["%rax", "%rbx"]), ("push", ["%rax"]), ("ret", [])]),
+            ([{"$not": ["nop"]}, {"$not": ["nop"]}], [("mov", ["%rax", "%rbx"]), ("push", ["%rax"])]),
+            (["push", {"$not": [{"$and": ["nop", "nop"]}]}, "ret"], [("push", ["%rax"]), ("nop", []), ("ret", [])])]
+
+
 def run_shard(shard, tier, h, res, known):
+    e1.run_long_family(h, res, known, shard, LONGLIST, [32800] if tier == "quick" else [8300, 32800, 65600], prop=ID)
     e1.run_rules(h, res, known, all_rules(tier), e1.get_lsets(h, tier, build_lsets), shard, prop=ID)
 
 
@@ -115,4 +122,6 @@ def controls(h):
 
 
 def replay(case, h):
+    if case.get("family") == "longlisting":
+        return e1.replay_long_case(case, h)
     return e1.replay_case(case, h, want=("verdict", "aligned", "genuine"))
